@@ -19,6 +19,9 @@ Inductive prim := PAdd | PSub | PMul | PLt | PEq | PLen | PAppend | PNot | PPrin
 (* lambda parameters: `x`, `x = default`, `...x` *)
 Inductive pkind := KPlain | KSplat.
 
+(* switch patterns: an integer literal, a name (binds the scrutinee), `_` *)
+Inductive pat := PLit (z : Z) | PBind (x : name) | PWild.
+
 Inductive expr :=
 | ENull
 | EInt (z : Z)
@@ -45,6 +48,7 @@ Inductive expr :=
 | ECall (f : expr) (args : list (bool * expr))  (* f(a, ...b) *)
 | EPrim (p : prim) (args : list expr)
 | EEval (e : expr)                              (* eval("<text of e>") *)
+| ESwitch (s : expr) (arms : list (pat * expr)) (* switch (s) case p -> e ... *)
 with clause :=
 | CIter (x : name) (e : expr)                   (* x <- e *)
 | CItem (i x : name) (e : expr)                 (* i, x <<- e *)
